@@ -12,6 +12,7 @@ mod fwd;
 mod gen;
 mod model;
 mod names;
+mod recgen;
 mod props;
 
 use engine::*;
